@@ -87,6 +87,15 @@ Theorem C05_attach_only_after_accept : forall names l c n sid,
   exists l1 l2, l = l1 ++ SVerdict c n true sid :: l2.
 Proof. exact attach_only_after_accept. Qed.
 
+(** The CONNECT reply never precedes the attachment: a step that hands a CONNECT packet of namespace
+    n to an open connection c leaves n in c's table, so the first packet the client sends on reading
+    the reply is routed to its socket instead of closing the connection.  (This is what the order
+    repaired in 2cd31b1 guarantees; with the table written after the reply the statement is false.) *)
+Theorem C05_connect_reply_implies_attached : forall o s c p,
+  In (OSend c p) (snd (sstep o s)) -> p_type p = PConnect -> closed s c = false ->
+  tbl (fst (sstep o s)) c (p_nsp p) <> None.
+Proof. exact connect_reply_implies_attached. Qed.
+
 (** "Attached" also means "reachable by broadcasts": the adapter of a namespace delivers only to
     sockets the namespace's store knows, and a socket enters that store only in the step in which
     nsp.add succeeds.  So over every history, every packet that a broadcast in namespace n (whole
